@@ -567,9 +567,12 @@ impl<TokenIter: Iterator<Item = Result<Token>>> Parser<TokenIter> {
                                         .into()
                                 }
                                 keyword => {
-                                    if let Some(transformer) =
-                                        syntax_env.get(&first.expect_symbol()?)
-                                    {
+                                    // cloned, so that the scope is not borrowed while the
+                                    // expansion (which may define syntax in it) is transformed
+                                    let transformer = syntax_env
+                                        .get(&first.expect_symbol()?)
+                                        .map(|transformer| transformer.clone());
+                                    if let Some(transformer) = transformer {
                                         let remained = DatumBody::Pair(pair).locate(location);
                                         let mut expanded_datum =
                                             transformer.transform(keyword, remained)?;
